@@ -65,17 +65,42 @@ def _init_worker(copia, root, uni_blob, seed):
         os.makedirs(os.path.join(d, sub))
     _W.update(copia=copia, dir=d, A=os.path.join(d, "A"), B=os.path.join(d, "B"), home=os.path.join(d, "home"),
               uni=Universe(*uni_blob), rng=random.Random(seed * 1000 + wid))
-    # bootstrap: learn this worker's pair ids for both argument orders
+    # bootstrap: learn this worker's pair ids for both argument orders.  The probe run has something to do (a file on
+    # one side) so that it records its common state whatever a run with an empty plan does.  A Pool initializer that
+    # raises makes the pool respawn workers for ever, so a failure is kept and raised by the first task instead.
     _W["pair"] = {}
-    for order in ("AB", "BA"):
-        a, b = (_W["A"], _W["B"]) if order == "AB" else (_W["B"], _W["A"])
-        subprocess.run([copia, "bisync", a, b], env=_env(_W["home"]), stdout=subprocess.DEVNULL, stderr=subprocess.DEVNULL)
-        adir = os.path.join(_W["home"], ".copia", "archive")
-        fs = [f for f in os.listdir(adir) if f.endswith(".json")]
-        known = set(_W["pair"].values())
-        new = [f[:-5] for f in fs if f[:-5] not in known]
-        _W["pair"][order] = new[0]
+    _W["init_error"] = None
+    try:
+        for order in ("AB", "BA"):
+            a, b = (_W["A"], _W["B"]) if order == "AB" else (_W["B"], _W["A"])
+            with open(os.path.join(_W["A"], "zz-probe"), "wb") as fh:
+                fh.write(b"probe\n")
+            p = subprocess.run([copia, "bisync", a, b], env=_env(_W["home"]), stdout=subprocess.PIPE, stderr=subprocess.PIPE, timeout=120)
+            adir = os.path.join(_W["home"], ".copia", "archive")
+            fs = [f for f in os.listdir(adir) if f.endswith(".json")] if os.path.isdir(adir) else []
+            known = set(_W["pair"].values())
+            new = [f[:-5] for f in fs if f[:-5] not in known]
+            if not new:
+                raise NoArchive(f"a bisync run of two directories (one file to propagate, order {order}) exited {p.returncode} "
+                                f"and recorded no common state under ~/.copia/archive: {p.stderr.decode('utf8', 'replace')[-200:]}")
+            _W["pair"][order] = new[0]
+    except NoArchive as e:
+        _W["init_error"] = str(e)
+    except Exception as e:                                             # noqa: BLE001 - must not escape an initializer
+        _W["init_error"] = "bootstrap failed: " + repr(e)
+    for side in (_W["A"], _W["B"]):
+        for f in os.listdir(side):
+            os.unlink(os.path.join(side, f))
     shutil.rmtree(os.path.join(_W["home"], ".copia"), ignore_errors=True)
+
+
+class NoArchive(Exception):
+    """a completed run recorded no common state: the harness cannot pre-load archives (and C06 is violated)"""
+
+
+def _check_init():
+    if _W.get("init_error"):
+        raise NoArchive(_W["init_error"])
 
 
 def _materialise(s, blob, order, rng):
@@ -166,6 +191,7 @@ def _run(order, dry=False):
 
 
 def explore_state(job):
+    _check_init()
     """job = (state, archive blob or None, flags) -> edge record(s)"""
     s, blob, flags = job
     uni = _W["uni"]
@@ -288,6 +314,7 @@ FAULT_KINDS = ["stale_bak", "absent", "zero", "trunc", "garbage", "wrong_shape",
 
 
 def fault_state(job):
+    _check_init()
     """job = (trusted state, blob, kind, param) -> run edge whose source is the same trees with an untrusted archive"""
     s, blob, kind, param = job
     uni = _W["uni"]
